@@ -294,6 +294,17 @@ def mk_int(op, a, b):
         if isinstance(ta, int) and ta == 0: return 0
     elif op == "floordiv":
         if isinstance(tb, int) and tb == 1: return wrap(ta)
+    if op in ("and", "mod") and isinstance(tb, int) and tb > 0 and not isinstance(ta, int):
+        # x & (2^k - 1) and x % m are the identity on values already in range (static bounds)
+        if op == "mod" or (tb & (tb + 1)) == 0:
+            lo, hi = bounds(ta, BOUNDS_MEMO)
+            lim = tb if op == "mod" else tb + 1
+            if lo is not None and hi is not None and lo >= 0 and hi < lim:
+                return wrap(ta)
+    if op == "and" and isinstance(ta, int) and ta > 0 and (ta & (ta + 1)) == 0 and not isinstance(tb, int):
+        lo, hi = bounds(tb, BOUNDS_MEMO)
+        if lo is not None and hi is not None and lo >= 0 and hi <= ta:
+            return wrap(tb)
     if op in ("floordiv", "mod") and isinstance(tb, int) and tb > 1 and not isinstance(ta, int):
         r = _reduce_divmod(op, ta, tb)
         if r is not None:
@@ -518,6 +529,7 @@ def bounds(t, memo=None):
         return memo[k]
     r = _bounds(t, memo)
     memo[k] = r
+    memo.setdefault("_keep", []).append(t)
     return r
 
 
@@ -535,6 +547,18 @@ def _bounds(t, memo):
         return (0, 1)
     if op == "ite":
         a, b = bounds(t[2], memo), bounds(t[3], memo)
+        c = t[1]
+        if isinstance(c, tuple) and c[0] in ("le", "lt"):
+            def same(x, y):
+                return x is y or (isinstance(x, int) and isinstance(y, int) and x == y) or x == y
+            mn = lambda p, q: None if p is None or q is None else min(p, q)
+            mx = lambda p, q: None if p is None or q is None else max(p, q)
+            if same(c[1], t[2]) and same(c[2], t[3]):        # x <= y ? x : y   == min(x, y)
+                hi = a[1] if b[1] is None else (b[1] if a[1] is None else min(a[1], b[1]))
+                return (mn(a[0], b[0]), hi)
+            if same(c[1], t[3]) and same(c[2], t[2]):        # x <= y ? y : x   == max(x, y)
+                lo = a[0] if b[0] is None else (b[0] if a[0] is None else max(a[0], b[0]))
+                return (lo, mx(a[1], b[1]))
         lo = None if a[0] is None or b[0] is None else min(a[0], b[0])
         hi = None if a[1] is None or b[1] is None else max(a[1], b[1])
         return (lo, hi)
@@ -556,6 +580,9 @@ def _bounds(t, memo):
             return (0, bh - 1)
         if bl is not None and bl > 0:
             return (0, None)
+        if bl is not None and bh is not None:
+            m = max(abs(bl), abs(bh))       # |a % b| < |b| (b == 0 raises before the term is built)
+            return (-(m - 1) if m else 0, (m - 1) if m else 0)
         return (None, None)
     if op == "floordiv":
         if bl is not None and bl > 0:
@@ -566,6 +593,9 @@ def _bounds(t, memo):
                 c = [al // bl, al // bh, ah // bl, ah // bh]
                 lo, hi = min(c), max(c)
             return (lo, hi)
+        if al is not None and ah is not None:
+            m = max(abs(al), abs(ah))       # |a // b| <= |a| for |b| >= 1, floor may add one in magnitude
+            return (-m - 1, m + 1)
         return (None, None)
     if op == "and":
         # nonneg & anything-nonneg
@@ -604,6 +634,64 @@ def _bounds(t, memo):
     if op == "pow":
         return (None, None)
     return (None, None)
+
+
+# static bounds of the terms built on the current path (reset by Path.__init__); entries keep their term alive
+BOUNDS_MEMO = {}
+
+
+def reset_bounds_memo():
+    BOUNDS_MEMO.clear()
+
+
+def refine_bounds(assertions, memo):
+    """tighten the static bounds of the terms that the (path-condition) assertions compare with constants:
+    `x <= c`, `x < c`, `c <= x`, `c < x`, `x == c` and their negations, at the top level or inside a top-level conjunction"""
+    def tighten(t, lo, hi):
+        if isinstance(t, (int, bool)):
+            return
+        l0, h0 = bounds(t, memo)
+        if lo is not None and (l0 is None or lo > l0):
+            l0 = lo
+        if hi is not None and (h0 is None or hi < h0):
+            h0 = hi
+        memo[id(t)] = (l0, h0)
+        memo.setdefault("_keep", []).append(t)
+
+    def visit(a, positive):
+        if isinstance(a, bool) or not isinstance(a, tuple):
+            return
+        op = a[0]
+        if op == "not":
+            visit(a[1], not positive)
+            return
+        if op == "andb" and positive:
+            for x in a[1:]:
+                visit(x, True)
+            return
+        if op == "orb" and not positive:
+            for x in a[1:]:
+                visit(x, False)
+            return
+        if op in ("le", "lt"):
+            x, y = a[1], a[2]
+            strict = (op == "lt")
+            if not positive:           # not(x <= y) == y < x ; not(x < y) == y <= x
+                x, y = y, x
+                strict = not strict
+            if isinstance(y, int) and not isinstance(y, bool):
+                tighten(x, None, y - 1 if strict else y)
+            if isinstance(x, int) and not isinstance(x, bool):
+                tighten(y, x + 1 if strict else x, None)
+            return
+        if op == "eq" and positive:
+            x, y = a[1], a[2]
+            if isinstance(y, int) and not isinstance(y, bool):
+                tighten(x, y, y)
+            if isinstance(x, int) and not isinstance(x, bool):
+                tighten(y, x, x)
+    for a in assertions:
+        visit(a, True)
 
 
 _fresh = itertools.count()
